@@ -27,6 +27,10 @@ type Op struct {
 	Reader bool       `json:"reader,omitempty"` // delegating text.Reader wrapper (Parse paths)
 	Fault  *FaultPlan `json:"fault,omitempty"`
 	Aux    *Config    `json:"aux,omitempty"` // AuxConvert: configuration of the other instance
+	// Reuse: the caller reads every document into ONE buffer it reuses from call to call
+	// (as a server reading request bodies does): the source handed to goldmark is that
+	// buffer, overwritten by the next such call. Only for calls that do not keep a tree.
+	Reuse bool `json:"reuse_buffer,omitempty"`
 }
 
 func (o Op) String() string {
@@ -48,6 +52,9 @@ func (o Op) String() string {
 	}
 	if o.Aux != nil {
 		s += ",aux{" + o.Aux.Key() + "}"
+	}
+	if o.Reuse {
+		s += ",reusebuf"
 	}
 	return s + ")"
 }
@@ -212,6 +219,8 @@ type Env struct {
 	docs [][]byte
 	orig [][]byte                     // pristine copies of docs: what the caller asked to convert
 	aux  map[string]goldmark.Markdown // other instances created during the run (AuxConvert)
+	// one reusable read buffer per client (index = client id), see Op.Reuse
+	scratch [16][]byte
 }
 
 func newEnv(cfg Config, docs [][]byte) *Env {
@@ -292,6 +301,11 @@ func execOp(e *Env, trees map[int]*treeHandle, client, idx int, op Op, y *yielde
 			}
 		}
 	}()
+	if op.Reuse && (op.Kind == "Convert" || op.Kind == "PkgConvert" || op.Kind == "AuxConvert" || op.Kind == "ParseRender") && client >= 0 && client < len(e.scratch) {
+		buf := append(e.scratch[client][:0], src...)
+		e.scratch[client] = buf
+		src = buf
+	}
 	var w io.Writer
 	needW := op.Kind != "Parse" && op.Kind != "ParseOnly" && op.Kind != "Walk"
 	if needW {
